@@ -709,7 +709,14 @@ class ParseWalker:
                         for b in self.blocks(var):
                             self.read(b, name)
                 elif meth in ('find_all', 'find_children'):
-                    pass        # handled by for_ (only legal as a loop iterable)
+                    # as a `for` iterable this is handled (with variable binding) by for_; inside a comprehension only the
+                    # lookup itself is recorded
+                    if not (meth == 'find_children' and self.fn == 'Side._iter_disp_row'):
+                        cur = self.blk(var)
+                        for a_ in n.args:
+                            (nm,) = self.lits(a_, ln)
+                            self.read(cur, nm)
+                            cur = self.q(nm, cur)
                 elif meth in ('has_children',):
                     pass
                 else:
